@@ -377,7 +377,7 @@ class Expression:
     # {{{ arithmetic
 
     def __add__(self, other: object) -> ArithmeticExpressionT:
-        if not is_arithmetic_expression(other):
+        if not is_valid_operand(other):
             return NotImplemented
         if is_nonzero(other):
             if self:
@@ -391,7 +391,9 @@ class Expression:
             return self
 
     def __radd__(self, other: object) -> ArithmeticExpressionT:
-        assert is_number(other)
+        if not is_constant(other):
+            return NotImplemented
+
         if is_nonzero(other):
             if self:
                 return Sum((other, self))
@@ -470,7 +472,7 @@ class Expression:
         return FloorDiv(self, other)
 
     def __rfloordiv__(self, other: object) -> ArithmeticExpressionT:
-        if not is_arithmetic_expression(other):
+        if not is_valid_operand(other):
             return NotImplemented
 
         if is_zero(self-1):
